@@ -7,6 +7,8 @@ import (
 	"github.com/bartossh/Computantis/src/accountant"
 	"math/rand"
 	"sort"
+	"strconv"
+	"strings"
 	"time"
 
 	"github.com/bartossh/Computantis/src/gossip"
@@ -103,10 +105,14 @@ func c12Forge(net *vnet.Net, rng *rand.Rand, class string, item ledger.H, adv in
 			out = append(out, &protobufcompiled.Gossiper{Address: va, Digest: d[:], Signature: s})
 		}
 	}
-	if class == "sybil-entries" {
+	if strings.HasPrefix(class, "sybil-entries") {
 		// genuinely signed entries of wallets that are nobody's peer (throw-away keys of the adversary): they verify,
-		// and they say nothing about whether any real peer was informed
-		for i := 0; i < 3+len(victims)+rng.Intn(6); i++ {
+		// and they say nothing about whether any real peer was informed ("sybil-entries:N" asks for exactly N of them)
+		count := 3 + len(victims) + rng.Intn(6)
+		if i := strings.IndexByte(class, ':'); i > 0 {
+			count, _ = strconv.Atoi(class[i+1:])
+		}
+		for i := 0; i < count; i++ {
 			sy := ledger.NewActor("sybil")
 			d, s := sy.W.Sign(append([]byte(sy.Addr), item[:]...))
 			out = append(out, &protobufcompiled.Gossiper{Address: sy.Addr, Digest: d[:], Signature: s})
@@ -668,7 +674,46 @@ func c12Joining(w *core.WorkerCtx, rng *rand.Rand, rounds int) {
 	}
 }
 
+// c12ListLengths: the relay pads its copy with N entries that its own throw-away keys signed for this very item, for
+// list lengths around every round number (quick) or every length up to 260 (thorough, spread over the batches). Paw
+// graph: origin 0, malicious relay 1, honest relay 2 (peer of both), node 3 behind relay 2. The forged copy reaches
+// relay 2 before the origin's own copy: node 3 must get the item whatever N is.
+func c12ListLengths(w *core.WorkerCtx, rng *rand.Rand) {
+	t := smallTopos[6]
+	var lengths []int
+	if w.Thorough() {
+		for n := 1 + w.Batch%w.Batches; n <= 260; n += w.Batches {
+			lengths = append(lengths, n)
+		}
+	} else {
+		for _, c := range []int{2, 8, 16, 32, 50, 64, 100, 128, 200, 256} {
+			lengths = append(lengths, c-1, c, c+1)
+		}
+	}
+	net, err := vnet.Build(t.k, t.adj, 1)
+	if err != nil {
+		w.R.Inconc("cannot build network: " + err.Error())
+		return
+	}
+	defer net.Close()
+	hv := &c12Harvest{byAddr: map[string][]*protobufcompiled.Gossiper{}}
+	for i, n := range lengths {
+		kind := []string{"vrx", "trx"}[i%2]
+		if !w.Thorough() || i%3 == 0 {
+			// both kinds of item for the same length
+			c12Execution(w, net, t, rng, 1, 0, []string{"trx", "vrx"}[i%2], fmt.Sprintf("sybil-entries:%d", n), hv, 50000+2*i, false)
+			c11Heal(net, 1)
+		}
+		c12Execution(w, net, t, rng, 1, 0, kind, fmt.Sprintf("sybil-entries:%d", n), hv, 50001+2*i, false)
+		c11Heal(net, 1)
+		w.R.Count("c12_list_length_executions", 1)
+	}
+}
+
 func c12Worker(w *core.WorkerCtx) {
+	if w.Batch == 1 || w.Thorough() {
+		c12ListLengths(w, core.Rand(w.Seed, "C12len", w.Batch))
+	}
 	c12Unit(w, core.Rand(w.Seed, "C12unit", w.Batch), w.Pick(20, 400))
 	if w.Batch%2 == 0 {
 		c12PullHarvest(w, core.Rand(w.Seed, "C12pull", w.Batch), w.Pick(4, 40))
